@@ -250,3 +250,73 @@ func overlappingOpensShareOneRound(c *Ctx, rule string) {
 		c.Undecided("%s: no test of backoff.attempts() on the open path decides about a reconnection round any more", rule)
 	}
 }
+
+// F69 (C01-D13): the application's connection handlers have run before the first event of the socket can be
+// dispatched.  doConnect queues the CONNECT reply and only then starts a goroutine for OnAnyConnection/OnConnection;
+// the client flushes its offline buffer the moment the reply arrives and the server dispatches every packet on its
+// own goroutine with the handler set of that moment — an event that wins the race finds no handler and is dropped
+// without an error.
+func connectionHandlersBeforeFirstEvent(c *Ctx, rule string) {
+	p := c.P
+	fn := p.Fn("sio", "Namespace.doConnect")
+	replies := CallsTo(Calls(fn), `\(\*sio\.serverSocket\)\.onConnect`)
+	var fan []CallSite
+	for _, cs := range CallsDeep(fn) {
+		ci := cs.Common()
+		if strings.Contains(calleeName(ci), "forEach") && len(ci.Args) > 0 && strings.Contains(Term(ci.Args[0]), "onnectionHandlers") {
+			fan = append(fan, cs)
+		}
+	}
+	if len(replies) == 0 || len(fan) == 0 {
+		c.Undecided("%s: Namespace.doConnect: %d CONNECT replies, %d connection-handler fan-outs found", rule, len(replies), len(fan))
+		return
+	}
+	// where a fan-out written in a function literal takes place in doConnect: the instruction that runs the literal
+	runsAt := func(lit *ssa.Function) (ssa.Instruction, bool) {
+		for _, b := range fn.Blocks {
+			for _, in := range b.Instrs {
+				ci, isCall := in.(ssa.CallInstruction)
+				if !isCall {
+					continue
+				}
+				v := ci.Common().Value
+				if mc, isMC := v.(*ssa.MakeClosure); isMC {
+					v = mc.Fn
+				}
+				if f, isF := v.(*ssa.Function); isF && f == lit {
+					_, isGo := in.(*ssa.Go)
+					_, isDefer := in.(*ssa.Defer)
+					return in, !isGo && !isDefer
+				}
+			}
+		}
+		return nil, false
+	}
+	ok := true
+	detail := ""
+	for _, f := range fan {
+		at := ssa.Instruction(f.Instr)
+		if f.IsGo() {
+			ok = false
+			detail = "the fan-out over " + Term(f.Common().Args[0]) + " is started with `go`"
+			continue
+		}
+		if f.Instr.Parent() != fn && ownerOf(f.Instr.Parent()) != fn {
+			in, sync := runsAt(f.Instr.Parent())
+			if in == nil || !sync {
+				ok = false
+				detail = "the fan-out over " + Term(f.Common().Args[0]) + " runs on a goroutine of its own (or deferred)"
+				continue
+			}
+			at = in
+		}
+		for _, r := range replies {
+			if !Dominates(at, r.Instr) {
+				ok = false
+				detail = "the fan-out over " + Term(f.Common().Args[0]) + " does not precede the CONNECT reply"
+			}
+		}
+	}
+	c.Ob(rule, "sio.Namespace.doConnect/handlers-before-first-event", replies[0].Pos(), ok,
+		"the connection handlers (where the application registers its event handlers) are not run before the CONNECT reply is queued: "+detail+" — the client's first events (its offline buffer is flushed when the reply arrives) are dispatched with the handler set of that moment and dropped silently when the registration has not happened yet")
+}
